@@ -65,7 +65,7 @@ def gen_value(rng, depth=0):
         n = rng.randrange(1, 4)
         return "[" + ",".join(f"{pick(rng, ['a', 'b', 'k1', 'Z', 'm'])}{i}::{gen_scalar(rng)}" for i in range(n)) + "]"
     if k == 2 and depth == 0:
-        # holographic pattern (schema field definition syntax) — class of known finding F36 when it carries constraints
+        # holographic pattern (schema field definition syntax) — class of known finding C06N1 when it carries constraints
         ex = pick(rng, ['"x"', "4", "[a,b]", '"ACTIVE"'])
         chain = pick(rng, ["REQ", "OPT", "REQ∧ENUM[A,B]", "OPT∧TYPE[NUMBER]", 'REQ∧REGEX["^a"]', "REQ∧MAX_LENGTH[5]"])
         tgt = pick(rng, ["", "→§INDEXER", "→§SELF", "→§A∨§B"])
@@ -379,6 +379,9 @@ def gen_calls(rng, n, resources=(), frozen=None):
             if fn == "validate_inline":
                 st, nm, fs = pick(rng, inline)
                 a = {"schema_content": st, "content": gen_inline_doc(rng, nm, fs), "strict": rng.random() < .3, "fix": rng.random() < .4, "gbnf": rng.random() < .3}
+                if rng.random() < .7:
+                    a["targets_override"] = {f: pick(rng, ["T_A∨T_B", "T_C∨INDEXER∨T_A∨RISK_LOG", "§T_B∨§T_A∨§T_C∨§SELF∨§META", "T_A∨NOWHERE∨T_B", "./x∨T_A"])
+                                             for f in rng.sample(fs, rng.randrange(1, len(fs) + 1))}
             if fn == "hydrate":
                 h = gen_hydrate(rng)
                 a, c["files"] = h["args"], h["files"]
